@@ -13,7 +13,11 @@ use std::collections::BTreeSet;
 
 const PASSWORD: &str = "S3cret";
 
-const POSITIONS: &[&str] = &["first", "after-failed-auth", "after-ping-in-same-write", "before-correct-auth-in-same-write", "lowercase", "mixedcase", "leading-crlf", "inside-multi-attempt"];
+const POSITIONS: &[&str] = &["first", "after-failed-auth", "after-ping-in-same-write", "before-correct-auth-in-same-write", "lowercase", "mixedcase", "leading-crlf", "inside-multi-attempt",
+    // the unauthenticated connection is being closed by an authenticated client (CLIENT KILL ID) in the very loop iteration
+    // in which its command is read: visited after the killer (its state is already 'closing') and before it
+    // (a seeded gate that refused only the state 'connected' served such a connection)
+    "killed-just-before-being-read", "killed-just-after-being-read"];
 
 #[derive(Clone)]
 struct Case {
@@ -116,6 +120,22 @@ fn run_case(h: &mut Harness, c: &Case) -> Result<(String, Value), String> {
     ensure_dataset(h)?;
     let before = snapshot(h);
     let mut cli = h.srv.as_ref().unwrap().connect().map_err(|e| format!("connect: {:?}", e))?;
+    let killed = POSITIONS[c.position].starts_with("killed-");
+    let mut dummies: Vec<crate::srv::Client> = Vec::new();
+    if killed {
+        // connections are visited in the order of id % 16: pick a connection on the wanted side of the killer
+        let aux_slot = h.aux.as_ref().map(|a| a.id % 16).unwrap_or(0);
+        let want_after = POSITIONS[c.position] == "killed-just-before-being-read";
+        let mut tries = 0;
+        while (cli.id % 16 > aux_slot) != want_after || cli.id % 16 == aux_slot {
+            tries += 1;
+            if tries > 40 {
+                return Err("no connection id on the wanted side of the control connection".into());
+            }
+            dummies.push(cli);
+            cli = h.srv.as_ref().unwrap().connect().map_err(|e| format!("connect: {:?}", e))?;
+        }
+    }
     let conn_id = cli.id;
     let mut cmd = c.cmd.clone();
     let mut bytes = Vec::new();
@@ -151,9 +171,25 @@ fn run_case(h: &mut Harness, c: &Case) -> Result<(String, Value), String> {
         }
         _ => {}
     }
+    if killed {
+        // both writes are in the sockets before the loop runs again
+        let id = conn_id.to_string();
+        h.aux.as_mut().unwrap().send(&resp::cmd(&["CLIENT", "KILL", "ID", id.as_str()]));
+    }
     cli.send(&bytes);
     let want = expect_before + 1 + expect_after;
     let (got, err) = h.collect(&mut cli, want, 4);
+    if killed {
+        // the control connection's reply to CLIENT KILL
+        let srv = h.srv.as_ref().unwrap();
+        let aux = h.aux.as_mut().unwrap();
+        aux.poll();
+        let _ = aux.take_frame();
+        let _ = srv;
+    }
+    for mut d in dummies {
+        d.discard();
+    }
     let mut problems: Vec<String> = Vec::new();
     if h.srv.as_ref().unwrap().is_dead() {
         return Ok(("server-exited".into(), json!({"request": resp::show_cmd(&cmd), "position": POSITIONS[c.position], "panic": crate::srv::LAST_PANIC.lock().unwrap().clone()})));
@@ -168,7 +204,7 @@ fn run_case(h: &mut Harness, c: &Case) -> Result<(String, Value), String> {
             }
         }
         None => {
-            if !(harmless && c.name == "QUIT") {
+            if !(harmless && c.name == "QUIT") && !killed {
                 problems.push(format!("no-error-reply({})", err.clone().unwrap_or_else(|| "silence".into()).split(':').next().unwrap_or("")));
             }
         }
@@ -377,7 +413,7 @@ pub fn parent(tier: &str) -> i32 {
     println!("  c17: cases={} outcomes={:?}", evaluations, outcomes);
     report.coverage = json!({
         "evaluations": evaluations, "distinct_nontrivial": distinct.len(),
-        "rule": "complete product: every dispatched command name (table + scraped from the source, incl. SYNC, PSYNC, REPLCONF, MONITOR, (P)SUBSCRIBE, EVAL, MULTI/EXEC, SHUTDOWN, CONFIG, CLIENT) with plausible arguments addressing the sentinel data x 8 positions (first on a new connection; after a failed AUTH; second in one write after PING; in one write before a correct AUTH; lower case; mixed case; after leading CRLF/space; between MULTI and EXEC), plus every proper prefix / one-byte extension / case flip / binary / 1 MiB variant of the password, plus the positive cases. After every case: reply is an error, no later unsolicited bytes, internal dump of all 16 dbs, pub/sub tables, replica list, monitor list and the connection's own state unchanged, server alive.",
+        "rule": "complete product: every dispatched command name (table + scraped from the source, incl. SYNC, PSYNC, REPLCONF, MONITOR, (P)SUBSCRIBE, EVAL, MULTI/EXEC, SHUTDOWN, CONFIG, CLIENT) with plausible arguments addressing the sentinel data x 10 positions (first on a new connection; after a failed AUTH; second in one write after PING; in one write before a correct AUTH; lower case; mixed case; after leading CRLF/space; between MULTI and EXEC; while the connection is being killed by an authenticated client's CLIENT KILL in the same loop iteration, visited after and before the killer), plus every proper prefix / one-byte extension / case flip / binary / 1 MiB variant of the password, plus the positive cases. After every case: reply is an error, no later unsolicited bytes, internal dump of all 16 dbs, pub/sub tables, replica list, monitor list and the connection's own state unchanged, server alive.",
         "samples": samples, "exhaustive": true, "outcomes": outcomes.iter().cloned().collect::<Vec<_>>(), "positions": POSITIONS,
     });
     report.assumptions = vec!["PING and QUIT are the only commands besides AUTH that may be answered before authentication (as the property states)".into()];
